@@ -3,7 +3,8 @@ import FgaVerif.Proofs.WeightsPump
 /-! # C04 — weights equal the true maximum tuple-hop depth (specification side)
 
     `Spec/Weights.lean` is a *specification*, not a port: the Go weight assignment (`AssignWeights`,
-    an order-dependent depth-first search with cycle placeholders) is not modelled, and the real result
+    an order-dependent depth-first search with cycle placeholders) is ported separately
+    (`Model/WAssign.lean`, compared with the code per forced order) but not proved equal to it; the real result
     is compared with the specification on every generated model under forced traversal orders.  The
     theorems below are therefore about the specification only: they show that what the code is compared
     with really has the shape the property states.
